@@ -12,20 +12,16 @@ Open Scope N_scope.
 
 (* ---- deviations of the code from the text (each is a finding, see known/C06.json) -------- *)
 Record quirks : Type := mkQuirks {
-  k_meta_dup : bool;       (* meta-query PTR once per announced service instead of once per type *)
   k_sub_answer : bool;     (* subtype question: type PTR as answer, subtype PTR only as additional *)
-  k_family : bool;         (* "has an address on the link" and the additional address records
+  k_family : bool          (* "has an address on the link" and the additional address records
                               consider only the IP family the query came over *)
-  k_srv_old_host : bool;   (* direct SRV answers (and their address additionals) name the host as
-                              registered, not the name the host has after a conflict rename *)
-  k_lookup_lower : bool;   (* SRV/TXT/ANY questions are matched against
-                              name_changes[lower-cased registered name], so after the rename of a
-                              mixed-case instance name the old name is answered, the new one not *)
-  k_legacy_id : bool       (* legacy unicast responses carry id 0 instead of the query id *)
 }.
+(* Repaired in /repo since the first build (they were switches of this record): meta-query PTR
+   once per service (7c97a89), SRV target / additional owner after a host rename and lookup of a
+   renamed mixed-case instance (76fe236), id of legacy unicast responses (fbfe50b). *)
 
-Definition text_quirks : quirks := mkQuirks false false false false false false.
-Definition code_quirks : quirks := mkQuirks true true true true true true.
+Definition text_quirks : quirks := mkQuirks false false.
+Definition code_quirks : quirks := mkQuirks true true.
 
 (* ---- records with the literal values of the property text ---------------------------------- *)
 Definition sp_ptr (name alias : bytes) : rr := mkRR name 12 1 false 4500 (RPtr alias).
@@ -37,10 +33,13 @@ Definition sp_addr (name : bytes) (a : ip) : rr :=
 (* names are compared case-insensitively (ASCII) *)
 Definition ci_eq (a b : bytes) : bool := beq (lower a) (lower b).
 
-(* known-answer suppression (C10): a known answer that matches and whose TTL is more than half
-   of mine *)
+(* known-answer suppression (C10): a known answer for the same record (name, type, class, rdata;
+   the cache-flush bit is not part of the identity) whose TTL is more than half of mine *)
+Definition same_record (a b : rr) : bool :=
+  beq (r_name a) (r_name b) && (r_type a =? r_type b) && (r_class a =? r_class b)
+  && beq_rdata (r_data a) (r_data b).
 Definition known (m : msg) (mine : rr) : bool :=
-  existsb (fun theirs => rr_matches mine theirs && (r_ttl mine / 2 <? r_ttl theirs)) (m_answers m).
+  existsb (fun theirs => same_record mine theirs && (r_ttl mine / 2 <? r_ttl theirs)) (m_answers m).
 Definition unknown (m : msg) (l : list rr) : list rr := filter (fun r => negb (known m r)) l.
 
 Section Spec.
@@ -97,8 +96,7 @@ Definition meta_entry (e : entry) : bool :=
 Definition meta_types : list bytes := map (fun e => s_ty (e_svc e)) (filter meta_entry entries).
 Definition spec_meta (q : question) : list rr :=
   if beq (q_name q) META_QUERY then
-    unknown m (map (sp_ptr (q_name q))
-                   (if k_meta_dup k then meta_types else nodup (list_eq_dec N.eq_dec) meta_types))
+    unknown m (map (sp_ptr (q_name q)) (nodup (list_eq_dec N.eq_dec) meta_types))
   else [].
 
 (* A / AAAA / ANY question on the host name *)
@@ -112,20 +110,18 @@ Definition spec_addr_entry (q : question) (e : entry) : list rr :=
   else [].
 
 (* SRV / TXT / ANY question on the instance name *)
-Definition inst_match (q : question) (e : entry) : bool :=
-  if k_lookup_lower k
-  then beq (resolve_name nc (e_key e)) (lower (q_name q))
-  else ci_eq (q_name q) (cur_inst (e_svc e)).
+Definition inst_match (q : question) (e : entry) : bool := ci_eq (q_name q) (cur_inst (e_svc e)).
 
 Definition spec_inst_entry (q : question) (e : entry) : list rr * list rr :=
   let s := e_svc e in
   let t := q_type q in
-  let host := if k_srv_old_host k then s_host s else cur_host s in
+  let srv := sp_srv (q_name q) (s_port s) (cur_host s) in
   if inst_match q e && answerable e then
-    (unknown m ((if (t =? 33) || (t =? 255) then [sp_srv (q_name q) (s_port s) host] else [])
+    (unknown m ((if (t =? 33) || (t =? 255) then [srv] else [])
                 ++ (if (t =? 16) || (t =? 255) then [sp_txt (q_name q) (s_txt s)] else [])),
-     (* RFC 6763 12.2 (the text is silent): an SRV question brings the address records *)
-     if t =? 33 then map (sp_addr host) (link_addrs s) else [])
+     (* RFC 6763 12.2 (the text is silent): the SRV answer to an SRV question brings the
+        address records *)
+     if (t =? 33) && negb (known m srv) then map (sp_addr (cur_host s)) (link_addrs s) else [])
   else ([], []).
 
 Definition spec_question (q : question) : list rr * list rr :=
@@ -155,7 +151,7 @@ Definition spec (k : quirks) (inp : hq_input) : option packet :=
     Some (mkPacket
             (if legacy inp then DUnicast (h_src_ip inp) (h_src_port inp) else DMulticast v4t)
             (mi_index intf)
-            (if legacy inp then (if k_legacy_id k then 0 else m_id m) else 0)
+            (if legacy inp then m_id m else 0)
             33792                                        (* QR | AA *)
             (if legacy inp then map (fun q => (q_name q, q_type q)) (m_questions m) else [])
             (if legacy inp then map clear_flush answers else answers)
@@ -236,30 +232,18 @@ Fixpoint nodup_b (l : list bytes) : bool :=
   | x :: t => negb (mem x t) && nodup_b t
   end.
 
-(* my_services is keyed by the lower-cased full name; no two services answer to the same
-   (renamed) key *)
+(* no two services answer to the same (renamed, lower-cased) instance name *)
 Definition wf_input (inp : hq_input) : bool :=
-  forallb (fun e => wf_service (e_svc e) && beq (e_key e) (lower (s_fullname (e_svc e)))) (h_services inp)
-  && nodup_b (map (fun e => resolve_name (h_name_changes inp) (e_key e)) (h_services inp)).
+  forallb (fun e => wf_service (e_svc e)) (h_services inp)
+  && nodup_b (map (fun e => lower (resolve_name (h_name_changes inp) (s_fullname (e_svc e)))) (h_services inp)).
 
 (* inputs outside every deviation class: there the code does what the text says *)
 Definition clean (inp : hq_input) : bool :=
-  let nc := h_name_changes inp in
   let v4t := is_v4 (h_src_ip inp) in
   let qs := m_questions (h_msg inp) in
   let ann := filter (fun e => is_announced (e_status e)) (h_services inp) in
-  (* meta query: no two announced services of one type *)
-  (negb (existsb (fun q => (q_type q =? 12) && beq (q_name q) META_QUERY) qs)
-   || nodup_b (meta_types (h_services inp)))
   (* no PTR question for the subtype of an announced service *)
-  && forallb (fun q => negb (q_type q =? 12) || forallb (fun e => negb (is_sub (e_svc e) (q_name q))) ann) qs
+  forallb (fun q => negb (q_type q =? 12) || forallb (fun e => negb (is_sub (e_svc e) (q_name q))) ann) qs
   (* every on-link address of an announced service has the family of the transport *)
   && forallb (fun e => forallb (fun a => negb (addr_on_intf (h_intf inp) a) || Bool.eqb (is_v4 a) v4t)
-                               (s_addrs (e_svc e))) ann
-  (* no announced service whose host was renamed *)
-  && forallb (fun e => beq (resolve_name nc (s_host (e_svc e))) (s_host (e_svc e))) ann
-  (* the renamed name is reachable through the lower-cased key *)
-  && forallb (fun e => beq (resolve_name nc (e_key e)) (lower (resolve_name nc (s_fullname (e_svc e)))))
-             (h_services inp)
-  (* a legacy query with id 0 *)
-  && ((h_src_port inp =? 5353) || (m_id (h_msg inp) =? 0)).
+                               (s_addrs (e_svc e))) ann.
